@@ -116,4 +116,27 @@ theorem wigm_every_configuration_fixed (p : Nat) (o : WigmOpts) (s0 : St Int) (h
   exact ⟨t, ht, wigm_result_all _ (fixed_lawful p) (fixed_eqRefl p) 2 (by norm_num) (fixed_rewLower_mulDiv p) o
     (fun _ => rfl) s0 t hG hL ht⟩
 
+/-! ## the oracle the checks evaluate is a theorem about every model record
+
+`okC02Gregory` is the compiled predicate the driver evaluates on the model's record and on the implementation's record (actions
+oldest first, `units = id` for fixed-point arithmetic). On every record whose final state satisfies `Inv` and `LInv 2` it is
+`true` — so for the Scottish rule (and likewise the other Gregory rules through the theorems above) an alarm of this oracle on
+the implementation's record can only come from the implementation's record differing from the model's. -/
+theorem okC02_of_inv (p : Nat) (ctx : Ctx) (s : St Int) (hn : ctx.nballots = s.nballots) (hrat : ctx.isRational = false)
+    (hI : Inv (fixedArith p) s) (hL : LInv (fixedArith p) 2 s) :
+    okC02Gregory (fixedArith p) ctx (fun k => k) s.acts.reverse = true := by
+  unfold okC02Gregory
+  rw [Bool.and_eq_true]
+  refine ⟨?_, recLowerB_of_LInv (fixedArith p) (fixed_lawful p) (fixed_lawfulRaw p) ctx (fun k => k) (fun k => by simp) s hn hrat hL⟩
+  have := recUpperB_of_recOK (fixedArith p) (fixed_lawful p) (fixed_lawfulRaw p) s hI.recOK
+  unfold recUpperB at this ⊢
+  rw [hn, List.all_reverse]; exact this
+
+theorem scotland_okC02 (p : Nat) (ctx : Ctx) (s0 t : St Int) (h0 : Init (fixedArith p) s0)
+    (hnoW : ∀ b ∈ s0.ballots, ∀ c ∈ s0.cands, c.st = .withdrawn → b.top ≠ some c.cid)
+    (h : scotCount (fixedArith p) s0 = some t)
+    (hn : ctx.nballots = (t.logAct (fixedArith p) "end" "Count Complete" []).nballots) (hrat : ctx.isRational = false) :
+    okC02Gregory (fixedArith p) ctx (fun k => k) (t.logAct (fixedArith p) "end" "Count Complete" []).acts.reverse = true :=
+  okC02_of_inv p ctx _ hn hrat (scotland_fixed p s0 t h0 h).1 (scotland_lower_fixed p s0 t h0 hnoW h)
+
 end Droop.C02
